@@ -118,11 +118,12 @@ Definition term_reqs (t : term) : reqs := add [] (map expr_req t).
 (* NewLabelRequirements(nodeSelector) *)
 Definition sel_reqs (s : list (string * string)) : reqs := add [] (map (fun kv => (fst kv, new_req In None [snd kv])) s).
 
-(* stable sort, descending weight (sort.SliceStable(terms, w[i] > w[j])) *)
+(* stable sort, descending weight (sort.SliceStable(terms, w[i] > w[j])): an earlier element stays in front of
+   later ones of equal weight *)
 Fixpoint ins_desc {A} (x : Z * A) (l : list (Z * A)) : list (Z * A) :=
   match l with
   | [] => [x]
-  | y :: t => if fst y <? fst x then x :: y :: t else y :: ins_desc x t
+  | y :: t => if fst y <=? fst x then x :: y :: t else y :: ins_desc x t
   end.
 Definition sort_desc {A} (l : list (Z * A)) : list (Z * A) := fold_right ins_desc [] l.
 
@@ -174,13 +175,15 @@ Definition has_min_values (r : reqs) : bool :=
 
 (* InstanceTypes.SatisfiesMinValues: the keys whose distinct-value count stays below minValues, with the count *)
 Definition min_values_unsat (its : list itype) (r : reqs) : list (string * Z) :=
+  match its with [] => [] | _ =>          (* the per-instance-type loop never runs: nothing is recorded *)
   flat_map (fun kr =>
     match minv (snd kr) with
     | None => []
     | Some m =>
         let n := Z.of_nat (length (dedup (flat_map (fun i => vals (get (it_reqs i) (fst kr))) its))) in
         if n <? m then [(fst kr, n)] else []
-    end) r.
+    end) r
+  end.
 
 Definition total_for (g : dgroup) (total : rl) : rl :=
   match dg_overhead g with [] => total | _ => rmerge total (dg_overhead g) end.
